@@ -74,7 +74,9 @@ REQUIRED_BINS = ["mode_phy", "mode_link", "scrambling_on", "scrambling_off",
                  "com_word_after_skp", "data_word_right_after_skp", "burst_max_packet", "long_session", "overload_session",
                  "permission_toggles_in_idle_run", "link_filler_to_packet", "link_packet_to_filler", "link_tseq_word",
                  "link_u0_reached", "link_u0_link_command", "link_u0_header_packet", "link_u0_data_payload", "link_u0_partner_header",
-                 "link_filler_run_of_one_word"]
+                 "link_filler_run_of_one_word",
+                 "electrical_idle_mid_stream", "electrical_idle_with_backlog", "electrical_idle_during_permitted_idle",
+                 "resync_after_electrical_idle", "rate_judged_beyond_40_sets"]
 REQUIRED_EVENTS = ["phy_words_compared", "phy_data_symbols_descrambled", "skp_words", "skp_sets_owed_checks", "idle_words_replaced",
                    "idle_words_kept", "scrambler_hold_cycles", "inserter_sending_skip_cycles",
                    "link_cycles_monitored", "link_can_send_skp_cycles", "link_packet_words", "link_filler_words"]
@@ -223,6 +225,23 @@ class ScriptBuilder:
             self.add(*pack([self.dsym(), (END, 1), (END, 1), (END, 1)]) if self.rng.random() < 0.5 else
                      pack([(END, 1), (END, 1), (END, 1), (EPF, 1)]), 0, 1, "burst")
 
+    def sync_word(self):
+        self.add(*pack([(COM, 1), (SDP, 1), (EDB, 1), (END, 1)]), 0, 1, "sync")
+
+    def electrical_idle(self):
+        """the LTSSM switches the transmitter off for a while in the middle of the stream (whatever is pending), then a new
+        COM-led sync word starts the next judged stretch"""
+        self.res.bin("electrical_idle_mid_stream")
+        if self.owed >= 2:
+            self.res.bin("electrical_idle_with_backlog")
+        if self.words and self.words[-1][4] == "idle":
+            self.res.bin("electrical_idle_during_permitted_idle")
+        # (cycles, permission offered meanwhile: 0 never / 1 always / 2 alternating)
+        self.words.append((self.rng.choice([1, 2, 3, 8, 40, 150, 400]), self.rng.randrange(3), 0, 0, "ei"))
+        for _ in range(self.rng.randint(1, 6)):
+            self.add(0, 0, 0, 1, "idle_np")
+        self.sync_word()
+
     def burst_to_boundary(self, extra_words):
         """burst that ends `extra_words` words after (>=0) / before (<0) the word on which the next 354 boundary is crossed"""
         to_cross = (self.symbols_to_boundary() + 3) // 4          # the crossing happens on that many-th word from now
@@ -235,7 +254,7 @@ class ScriptBuilder:
 def build_phy_script(rng, res, profile, pre_words):
     sb = ScriptBuilder(rng, res, pre_words + 1)
     # sync word first: COM + three control symbols, unique in the stream head
-    sb.add(*pack([(COM, 1), (SDP, 1), (EDB, 1), (END, 1)]), 0, 1, "sync")
+    sb.sync_word()
     if profile == "long":
         target = rng.randint(5000, 8000)
     elif profile == "overload":
@@ -261,6 +280,8 @@ def build_phy_script(rng, res, profile, pre_words):
         r = rng.random()
         if profile == "long":
             # mostly idle; short traffic in between
+            if rng.random() < 0.01:
+                sb.electrical_idle()
             if r < 0.5:
                 sb.idle(rng.choice([50, 200, 400, 800]))
             elif r < 0.7:
@@ -272,6 +293,14 @@ def build_phy_script(rng, res, profile, pre_words):
             else:
                 sb.idle(rng.choice([1, 2, 3]), permitted=False)
             continue
+        if rng.random() < 0.035:
+            # electrical idle in the middle of the stream: after a burst (backlog), inside permitted idle, or anywhere
+            k = rng.random()
+            if k < 0.4:
+                sb.burst(rng.choice([177, 200, 264]))
+            elif k < 0.7:
+                sb.idle(rng.choice([1, 2, 5]))
+            sb.electrical_idle()
         if r < 0.20:
             sb.idle(rng.choice([1, 1, 1, 2, 2, 3, 5, 20, 60, 200, 400]))
         elif r < 0.25:
@@ -374,7 +403,7 @@ def run_phy(rng, tier, res):
     top = Top()
     lay, phy = top.layer, top.phy
     with Registry(Scrambler, CTCSkipInserter) as reg:
-        b = Bench(top, domain="ss", freq=125e6, clocks={"sync": 125e6}, max_cycles=len(script) + 400)
+        b = Bench(top, domain="ss", freq=125e6, clocks={"sync": 125e6}, max_cycles=len(script) + 400 + sum(w[0] + 8 for w in script if w[4] == "ei"))
     scr = reg.one(Scrambler)
     ins = reg.one(CTCSkipInserter)
     watch = [lay.sink.ready, phy.tx_data, phy.tx_datak]
@@ -384,12 +413,14 @@ def run_phy(rng, tier, res):
         watch.append(ins.sending_skip)
     b.watch(*watch)
     res.desc = {"mode": "phy", "profile": profile, "scrambling": scrambling, "words": len(script), "pre": [pre_idle, pre_words],
-                "first_words": ["%08x/%x/%d" % (d, c, s) for d, c, s, _, _ in script[:10]]}
-    res.sig("phy", scrambling, pre_idle, pre_words, [(d, c, s, v) for d, c, s, v, _ in script])
+                "first_words": ["%08x/%x/%d" % (d, c, s) for d, c, s, _, _ in script[:10]],
+                "electrical_idle_episodes": sum(1 for w in script if w[4] == "ei")}
+    res.sig("phy", scrambling, pre_idle, pre_words, [(d, c, s, v, k == "ei") for d, c, s, v, k in script])
 
     accepted = []          # (cycle, index into script) for every accepted word, in order
     outs = {}              # cycle -> (data, ctrl)
-    st = {"done": False, "t_active": None, "first_cycle": None, "not_ready_after_sync": None}
+    stalls = {}            # cycle -> script index offered in a cycle in which the layer did not take the word
+    st = {"done": False, "t_active": None, "ei": [], "stalls": stalls}
 
     def driver():
         b.set(lay.enable_scrambling, 1 if scrambling else 0)
@@ -405,6 +436,19 @@ def run_phy(rng, tier, res):
         for _ in range(pre_words):
             yield
         for i, (d, c, skp, valid, kind) in enumerate(script):
+            if kind == "ei":
+                b.set(lay.tx_electrical_idle, 1)
+                b.set(lay.sink.valid, 1)
+                b.set(lay.sink.payload, 0)
+                b.set(lay.sink.ctrl, 0)
+                st["ei"].append([b.cycle + 1, None])          # [first edge with the transmitter off, first edge with it on again)
+                for j in range(d):
+                    b.set(lay.can_send_skp, 1 if c == 1 or (c == 2 and j % 2) else 0)
+                    yield
+                b.set(lay.tx_electrical_idle, 0)
+                b.set(lay.can_send_skp, 0)
+                st["ei"][-1][1] = b.cycle + 1
+                continue
             b.set(lay.sink.valid, valid)
             b.set(lay.sink.payload, d)
             b.set(lay.sink.ctrl, c)
@@ -413,8 +457,7 @@ def run_phy(rng, tier, res):
                 yield
                 if b.get(lay.sink.ready):
                     break
-                if i > 0 and st["not_ready_after_sync"] is None:
-                    st["not_ready_after_sync"] = b.cycle
+                stalls[b.cycle] = i
             else:
                 res.violation("phy_sink_never_ready", "word #%d not taken within 200 cycles" % i)
                 return
@@ -459,11 +502,19 @@ def judge_phy(res, script, accepted, outs, st, scrambling):
     t_active = st["t_active"]
     ref = RefDescrambler(scrambling)
     shadow = RefDescrambler(scrambling)          # hypothesis "keystream also advances over SKP words" (classification only)
-    sets = 0                                     # SKP ordered sets seen since the transmitter became active
+    sets = 0                                     # SKP ordered sets since the transmitter was (last) switched on
+    sets_total = 0                               # ... since it was switched on for the first time
     # SKP words in the unjudged head of the stream still count for the rate
     for c in range(t_active, c_sync + lat):
         if outs.get(c) == SKP_WORD:
             sets += 2
+            sets_total += 2
+    eis = st["ei"]                               # electrical idle episodes [first cycle off, first cycle on again)
+    stalls = st["stalls"]
+    ei_idx = 0
+    ei_cycles = 0                                # cycles spent in electrical idle so far
+    ep_start = t_active
+    blind = False                                # between the start of an electrical idle episode and the next sync word
     rate_on = True
     missed = 0               # permitted idle words passed while >= 2 sets were owed (lower bound) since the last SKP word
     max_owed_since_ok = 0    # for the classification of the counter-wrap finding
@@ -478,18 +529,63 @@ def judge_phy(res, script, accepted, outs, st, scrambling):
     n_acc = len(accepted)
     for k, (cyc, idx) in enumerate(accepted):
         d, c, skp_ok, valid, kind = script[idx]
-        if cyc != expect_cycle:
-            # the layer refused a word for a cycle: the slot(s) in between cannot be aligned without prescribing a design
-            res.unjudged += 1
-            res.event("phy_case_cut_at_not_ready")
-            break
-        expect_cycle = cyc + 1
         oc = cyc + lat
         if oc not in outs:
             break
+        if not blind and ei_idx < len(eis) and oc >= eis[ei_idx][0]:
+            blind = True             # this word's slot on the pins falls into electrical idle: nothing is transmitted
+        if blind:
+            ei_on, ei_off = eis[ei_idx]
+            if kind == "sync" and cyc >= ei_off:
+                # the transmitter is on again and the link starts a new stretch with a COM-led word: judged again from here
+                if outs[oc] != (d, c):
+                    res.violation("sync_word_not_transmitted_after_electrical_idle",
+                                  "cycle %d: sync word #%d accepted %d cycles after the transmitter was switched on again, pins show %08x/%x"
+                                  % (oc, idx, cyc - ei_off, outs[oc][0], outs[oc][1]))
+                    return
+                for cc in range(ei_off, oc):
+                    if outs.get(cc) == SKP_WORD:
+                        sets_total += 2
+                ei_cycles += ei_off - ei_on
+                ep_start, sets, missed, max_owed_since_ok = ei_off, 0, 0, 0
+                idle_run = run_burst = last_burst_len = 0
+                prev_skp, last_skp_idle_run_len = False, None
+                blind = False
+                ei_idx += 1
+                expect_cycle = cyc
+                res.bin("resync_after_electrical_idle")
+            else:
+                res.event("phy_words_not_judged_around_electrical_idle")
+                res.unjudged += 1
+                continue
+        if cyc != expect_cycle:
+            # the layer did not take a word for one or more cycles (never in today's luna outside electrical idle).  What the
+            # statement still decides: the only thing that may be transmitted in such a slot is a SKP word, and only while the
+            # word that waits is permitted logical idle; the stream after the stall is judged as before.
+            for g in range(expect_cycle, cyc):
+                slot = outs.get(g + lat)
+                waiting = stalls.get(g)
+                res.event("phy_stalled_slots_judged")
+                if slot == SKP_WORD:
+                    if waiting is None or not _is_permitted(script[waiting]):
+                        res.violation("skp_inserted_while_non_idle_word_waits", "cycle %d: SKP word transmitted while link word #%s waits"
+                                      % (g + lat, waiting))
+                        return
+                    sets += 2
+                    sets_total += 2
+                    skp_total += 1
+                    shadow.word(0, 0)
+                    res.event("skp_words")
+                else:
+                    res.violation("word_transmitted_while_link_stalled",
+                                  "cycle %d: %08x/%x on the pins although no link word was accepted for that slot (word #%s waits)"
+                                  % ((g + lat,) + tuple(slot or (0, 0)) + (waiting,)))
+                    return
+        expect_cycle = cyc + 1
         od, ok = outs[oc]
-        n_before = 4 * (oc - t_active)                   # symbols on the pins before this word
+        n_before = 4 * (oc - ep_start)                   # symbols on the pins before this word since the transmitter is on
         n_incl = n_before + 4
+        n_total_incl = 4 * (oc - t_active - ei_cycles) + 4
         crossing = (n_incl // LIMIT) != (n_before // LIMIT)
         permitted = (d, c) == (0, 0) and skp_ok == 1
         owed_hi = n_before // LIMIT - sets
@@ -512,12 +608,15 @@ def judge_phy(res, script, accepted, outs, st, scrambling):
                                   "cycle %d: word #%d %08x/%x (%s) was replaced by a SKP word; owed=%d" % (oc, idx, d, c, kind, owed_hi))
                 return
             sets += 2
+            sets_total += 2
             skp_total += 1
             res.event("skp_words")
             res.event("idle_words_replaced")
-            if rate_on and sets > (n_incl + 4 * PHASE_SLACK_WORDS) // LIMIT:
+            # a backlog may be carried across electrical idle (the statement does not say): the upper side counts everything
+            # transmitted since the first switch-on, with 2 more words of allowance per episode
+            if rate_on and sets_total > (n_total_incl + 4 * PHASE_SLACK_WORDS + 8 * ei_idx) // LIMIT:
                 res.violation("skp_sent_too_often", "cycle %d: %d SKP ordered sets after %d transmitted symbols (one per %d allowed)"
-                              % (oc, sets, n_incl, LIMIT))
+                              % (oc, sets_total, n_total_incl, LIMIT))
                 return
             if prev_skp:
                 res.bin("back_to_back_skp_words")
@@ -566,6 +665,8 @@ def judge_phy(res, script, accepted, outs, st, scrambling):
         if (d, c) == (0, 0):
             res.event("idle_words_kept")
         # ---- rate, lower side
+        if rate_on and n_before >= 40 * LIMIT:
+            res.bin("rate_judged_beyond_40_sets")
         if permitted:
             res.event("skp_sets_owed_checks")
             if rate_on and owed_lo >= 2:
